@@ -237,6 +237,23 @@ fn main() {
             let r = [(0u32, 0u32), (1, 1), (2, 3), (3, 2), (5, 5), (40, 40)][((rest / rsizes) % 6) as usize];
             check(ctx, RoundedRectangle::with_equal_corners(Rectangle::new(pos(rng), Size::new(w, h)), Size::new(r.0, r.1)), st);
         });
+        // a few large shapes with wide strokes (sizes/widths beyond 255 and around 128)
+        let nl = run.tier(48u64, 2000u64);
+        run.generate("large-shapes", nl, false, 0.3, |ctx, idx, rng| {
+            let big = |rng: &mut Rng| *rng.pick(&[255u32, 256, 257, 300, 320]) + rng.u32r(0, 3);
+            let (w, h) = if idx % 2 == 0 { (big(rng), rng.u32r(1, 60)) } else { (rng.u32r(1, 60), big(rng)) };
+            let st = StyleD { fill: if rng.chance(2, 3) { Some(1) } else { None }, stroke: if rng.chance(3, 4) { Some(2) } else { None }, width: *rng.pick(&[0u32, 1, 2, 3, 31, 64, 127, 128, 129, 140]), align: rng.below(3) as u8, dotted: false };
+            match (idx / 2) % 4 {
+                0 => check(ctx, Rectangle::new(pos(rng), Size::new(w, h)), st),
+                1 => check(ctx, Circle::new(pos(rng), w.max(h)), st),
+                2 => check(ctx, Ellipse::new(pos(rng), Size::new(w, h)), st),
+                _ => {
+                    let mut r = |rng: &mut Rng| Size::new(rng.u32r(0, w), rng.u32r(0, h));
+                    let corners = CornerRadii { top_left: r(rng), top_right: r(rng), bottom_right: r(rng), bottom_left: r(rng) };
+                    check(ctx, RoundedRectangle::new(Rectangle::new(pos(rng), Size::new(w, h)), corners), st)
+                }
+            }
+        });
         let rr = run.tier(150_000u64, 3_000_000u64);
         run.generate("rounded-rectangle-random-radii", rr, false, 0.4, |ctx, idx, rng| {
             let (st, _) = style_at(idx % styles, widths);
